@@ -238,31 +238,40 @@ def oracle_ifmr(chk, label, ifm, rng, npts=400):
             j = int(np.flatnonzero(ms == m)[0])
             if not (C.close_float(f1, float(mf[j]), 1e-13) and t1 == ty[j]):
                 chk.fail("scalar prediction agrees with array prediction", dict(label, mi=float(m), form=form), dict(scalar=[f1, t1], array=[float(mf[j]), ty[j]]))
-    # every remnant falls in exactly one bin of its class
-    try:
-        imf = PowerLawIMF([0.1, 0.5, 1.0, 150.0], [-0.5, -1.3, -2.5])
-        mb = MassBins([0.1, 0.5, 1.0, 150.0], [5, 5, 30], imf, ifm)
-    except Exception as e:  # noqa
-        chk.notes.append("MassBins construction raised %s for %s" % (type(e).__name__, label))
-        return
-    seen = set()
-    for m, t, f in zip(ms, ty, mf):
-        b = getattr(mb.bins, t)
-        inside = int(np.sum((np.atleast_1d(b.lower) <= f) & (f < np.atleast_1d(b.upper))))
-        if inside != 1:
-            peak = bool(t == "WD" and f >= ifm.WD_mf.upper * (1 - 1e-12))
-            key = "peak" if peak else "other"
-            if key in seen:
+    # every remnant falls in exactly one bin of its class - for every accepted form of the bin-count argument (remnant bins carved out
+    # of the stellar bins, or requested explicitly by a dict) and for IMFs ending at 100 or at 150 Msun
+    for top_, nb_ in ((150.0, [5, 5, 30]), (150.0, {"MS": [5, 5, 30], "WD": 8, "NS": 1, "BH": 10}), (100.0, {"MS": [5, 5, 20], "WD": 10, "BH": 6})):
+        lay_ = dict(label, m_upper=top_, nbins="dict" if isinstance(nb_, dict) else "list")
+        try:
+            imf = PowerLawIMF([0.1, 0.5, 1.0, top_], [-0.5, -1.3, -2.5])
+            mb = MassBins([0.1, 0.5, 1.0, top_], nb_, imf, ifm)
+        except Exception as e:  # noqa
+            chk.notes.append("MassBins construction raised %s for %s" % (type(e).__name__, lay_))
+            continue
+        seen = set()
+        for m, t, f in zip(ms, ty, mf):
+            if m > top_:
                 continue
-            seen.add(key)
-            chk.fail("every remnant created during an evolution falls in exactly one bin of its class", dict(label, mi=float(m), cls=t),
-                     dict(mf=float(f), bins_containing=inside), wd_peak=peak,
-                     ns_no_bin=bool(t == "NS" and np.atleast_1d(b.lower).size == 0))
+            b = getattr(mb.bins, t)
+            inside = int(np.sum((np.atleast_1d(b.lower) <= f) & (f < np.atleast_1d(b.upper))))
+            if inside != 1:
+                peak = bool(t == "WD" and f >= ifm.WD_mf.upper * (1 - 1e-12))
+                key = "peak" if peak else "other"
+                if key in seen:
+                    continue
+                seen.add(key)
+                chk.fail("every remnant created during an evolution falls in exactly one bin of its class", dict(lay_, mi=float(m), cls=t),
+                         dict(mf=float(f), bins_containing=inside, class_bins_span=[float(np.atleast_1d(b.lower)[0]), float(np.atleast_1d(b.upper)[-1])] if np.atleast_1d(b.lower).size else None),
+                         wd_peak=peak, ns_no_bin=bool(t == "NS" and np.atleast_1d(b.lower).size == 0),
+                         bh_on_top_dict_edge=bool(t == "BH" and isinstance(nb_, dict) and inside == 0 and np.atleast_1d(b.upper).size
+                                                  and float(f) == float(np.atleast_1d(b.upper)[-1]) and float(f) == float(ifm.BH_mf.upper)))
 
 
 def classify(f):
     if f.get("wd_peak"):
         return "wd_peak_on_upper_edge"
+    if f.get("bh_on_top_dict_edge"):
+        return "bh_max_on_top_dict_edge"
     if f.get("python_float_typeerror"):
         return "brokenpl_python_float"
     return None
